@@ -1268,3 +1268,8 @@ benign("disk_fs_modes_from_flag", ["C12", "C02", "C16", "C01"], "src/fs/fs_disk.
     new="""        open_options.append(append).truncate(!append);
 
         let file = open_options.open(path)?;""")
+
+# ---- D16 / PAIR-14
+mut("revert_D16", ["C09", "C10"], "GRD-22", patch="revert_D16_flush_level_during_compaction.diff", note="a flush inside a table compaction may be placed at the compaction's output level")
+mut("parent_inputs_from_the_hull_range", ["C10", "C09"], "PAIR-14", patch="parent_inputs_from_the_hull_range.diff")
+mut("grown_inputs_adopted_without_parents", ["C10", "C09"], "PAIR-14", patch="grown_inputs_adopted_without_parents.diff")
